@@ -116,12 +116,31 @@ def RoutedSoFar(inner, done, record, ls0, ls1):
     return forall_obj(lambda c: GOT(ls1, c) == (GOT(ls0, c) or (c in done and c in inner and inner[c] <= record.levelno)))
 
 
+def WrittenExists(h):
+    import os
+    return os.path.isfile(h.baseFilename)
+
+
+def OwnDated(h, name):
+    """<rootname>-YYYY-MM-DD.log: a dated log file of this handler (taken from the property: 'dated files' vs 'foreign files')"""
+    import re
+    return re.fullmatch(re.escape(h.rootname) + r'-\d{4}-\d{2}-\d{2}\.log', name) is not None
+
+
 def RolloverRemoves(h, rem0, rem1):
-    """with retention N > 0 exactly the files before the N last ones (sorted, `current` link excluded) are removed"""
+    """C20 as stated: with retention N > 0 the file being written and the N-1 newest other dated files of the handler are kept,
+    exactly the older dated files are removed (once each), and nothing else in the directory - foreign files, sub-directories,
+    the `current` link - is ever removed; with retention 0 nothing is removed"""
+    new = rem1[len(rem0):]
+    if rem1[:len(rem0)] != rem0:
+        return False
     if h.max_days == 0:
-        return rem1 == rem0
-    files = sorted(e.path for e in DIRLIST(dirname(h.baseFilename)).entries if e.name != 'current')
-    return rem1 == rem0 + files[:-h.max_days]
+        return new == []
+    written = basename(h.baseFilename)
+    earlier = sorted(e.name for e in DIRLIST(dirname(h.baseFilename)).entries
+                     if OwnDated(h, e.name) and e.is_file and e.name != written)
+    expected = earlier[:max(0, len(earlier) - (h.max_days - 1))]
+    return sorted(basename(p) for p in new) == expected and all(dirname(p) == dirname(h.baseFilename) for p in new)
 
 
 CONTRACTS = [
@@ -169,11 +188,9 @@ CONTRACTS = [
          requires=[], modifies=['baseFilename'], ensures={}, raises='never'),
     dict(key='LogfileHandler.doRollover', vc=False, file='frappy/logging.py', func='LogfileHandler.doRollover', serves=['C20'],
          self_type='LogfileHandler', requires=['inv(self)', 'self.max_days >= 0'], modifies=['baseFilename'],
-         ensures={'removed': 'RolloverRemoves(self, old(removed), removed)'}, raises='never'),
+         ensures={'removed': 'RolloverRemoves(self, old(removed), removed)', 'written_kept': 'WrittenExists(self)'}, raises='never'),
 ]
 LOOPS = {
-    'LogfileHandler.doRollover#0': dict(header='files[:-self.max_days]',
-        invariant={'removed': 'removed == old(removed) + list(seq__[:i__])'}),
     'RemoteLogHandler.handle#0': dict(header='subscriptions.items()', ghost=['log_sent'],
         invariant={'sofar': 'RoutedSoFar(subscriptions, done__, record, old(log_sent), log_sent)'}),
 }
